@@ -71,6 +71,26 @@ def list_comp_other(self, e, st, spec):
 
 
 Engine.ex_ListComp = list_comp
+
+
+def list_of_genexp(self, e, st, spec):
+    """list(<generator expression>) is the list comprehension with the same element and clauses"""
+    if isinstance(e.func, ast.Name) and e.func.id == "list" and len(e.args) == 1 and not e.keywords and isinstance(e.args[0], ast.GeneratorExp):
+        g = e.args[0]
+        lc = ast.copy_location(ast.ListComp(elt=g.elt, generators=g.generators), g)
+        return list_comp(self, lc, st, spec)
+    return NotImplemented
+
+
+_prev_builtin_call = Engine.builtin_call
+
+
+def builtin_call(self, name, e, st, spec):
+    r = list_of_genexp(self, e, st, spec)
+    return r if r is not NotImplemented else _prev_builtin_call(self, name, e, st, spec)
+
+
+Engine.builtin_call = builtin_call
 Engine.list_comp_other = list_comp_other
 
 _prev_binop_other = Engine.binop_other
